@@ -69,4 +69,20 @@ def run(c):
                          timeout=3000, tag="commit %s" % (pw,))
             c.absorb(g)
             os.remove(dump)
+    # "of the RIGHT validator set": where the commit is consumed.  Block validation must verify a block's LastCommit
+    # with the set that was in charge of the committed height, which differs from the current one when the validator
+    # set changed in between: every single-field change of a genuine block that specs/partset/BlockFields.tla generates
+    # (among them commits that reach +2/3 only under the wrong set) through the real ValidateBlock, in the scene where
+    # the set changed between heights 2 and 3 (the same replay C03/C13 use)
+    import checks.C13 as c13
+    dump = os.path.join(c.scratch, "bf-changed.dump")
+    tag = "join: MC_BlockFields height 3"
+    r = c.tlc("partset", "bf.cfg", module="MC_BlockFields",
+              files={"bf.cfg": c13.cfg_bf(False, False, 2, False, ["BaseValid", "AcceptedIsValid", "TamperEvidentId"])},
+              dump_to=dump, timeout=3000, tag=tag)
+    c13.must_hold(c, r, tag)
+    g = c.gotest("partset", "TestBlockFields", env=dict(BF_DUMP=dump, BF_INITIAL=0, BF_CHANGED=1, BF_SCENES=2, BF_STRICT=1), timeout=3000,
+                 tag="join: real ValidateBlock, validator set changed between heights 2 and 3")
+    c.absorb(g)
+    os.remove(dump)
     c.exhaustive = True
